@@ -86,6 +86,16 @@ def make_records(case):
             nf = int(round(f * N))
             eff = [[1, 0]] * nf + [[0, 0]] * (N - nf)
             suc = [False] * nf + [True] * (N - nf)
+            # a failure is a trial that ends outside the code space or with a
+            # logical effect: a distance-dependent share of the planted
+            # failures is of the first kind (spread evenly over the runs)
+            share = (case.get('oocs') or [0.0] * len(case['distances']))[di]
+            cs = [True] * N
+            n_out = int(share * nf)
+            if n_out:
+                for j in np.linspace(0, nf - 1, n_out).astype(int):
+                    cs[int(j)] = False
+                    eff[int(j)] = [0, 0]
             # the trials of a point may come from several runs (tasks of a
             # parallel run get equal shares and may well record equal times);
             # pooled, the planted rate is untouched
@@ -96,7 +106,7 @@ def make_records(case):
                 recs.append({'inputs': inputs_for(d, p),
                              'results': {'n_runs': b - a, 'wall_time': 1.0,
                                          'effective_error': eff[a:b], 'success': suc[a:b],
-                                         'codespace': [True] * (b - a)}})
+                                         'codespace': cs[a:b]}})
     return recs
 
 
@@ -207,7 +217,9 @@ def eval_case(case):
                       'window:' + case.get('shape', 'sym'),
                       'ragged-grid' if any(t != [0, 0] for t in (case.get('trims') or [])) else 'common-grid',
                       'C=0' if case['params'][4] == 0 else 'C>0',
-                      f"runs-per-point={case.get('runs', 1)}"] + sorted(
+                      f"runs-per-point={case.get('runs', 1)}",
+                      'some-failures-outside-codespace' if any(case.get('oocs') or []) else 'all-in-codespace']
+                     + sorted(
                           {'supplied-as:' + (l[2] if len(l) > 2 else 'dir') for l in case['layouts']}),
            'evals': len(case['layouts'])}
     if aux:
@@ -274,7 +286,9 @@ def cases(draw):
             trims = [[t[0], 0] for t in trims]
     return {'params': [p_th, nu, A, B_raw, C], 'distances': dist, 'rates': rates,
             'trims': trims, 'N': N, 'layouts': layouts, 'shape': shape,
-            'runs': draw(st.sampled_from([1, 1, 2, 4]))}
+            'runs': draw(st.sampled_from([1, 1, 2, 4])),
+            'oocs': ([0.0] * len(dist) if draw(st.booleans()) else
+                     [draw(st.sampled_from([0.0, 0.1, 0.2, 0.3, 0.5])) for _ in dist])}
 
 
 def run(ctx):
